@@ -9,6 +9,6 @@ trap 'cd /repo && git checkout -q -- . && git clean -fdq' EXIT
 cd /verif
 for p in "$@"; do
   echo "=== $p with $(basename $(dirname $P))/$(basename $P)"
-  VERIF_EVID_DIR=/tmp/mut-evid python3 check.py $p --tier quick 2>/dev/null | grep -E "^(VIOLATION|OK|INCONCLUSIVE|HARNESS|KNOWN|  key=)" | cut -c1-260 | head -12
+  VERIF_EVID_DIR=/tmp/mut-evid python3 check.py $p --tier quick 2>/dev/null | grep -E "^(VIOLATION|OK|INCONCLUSIVE|HARNESS|  key=)" | cut -c1-260 | head -12
   echo "rc=${PIPESTATUS[0]}"
 done
